@@ -13,8 +13,14 @@
   * `c08_auth_disabled`: with authentication disabled the CONNECT carries exactly the configured
     credentials, and AUTH packets arriving later find the exchange past `awaitingAuth` and change
     nothing (`c08_auth_ignored`).
+  * **all runs** — `c08_no_connect_without_auth`: with authentication enabled, after ANY sequence of
+    timed events that contains no AUTH datagram of the client (CONNECTs with or without a will, will
+    packets, every other datagram, malformed ones, broker packets, every timer on the way, EOF,
+    shutdown) NO MQTT CONNECT has been written to the broker; invariant: every connect exchange still
+    waits for AUTH (`AllAwait`, `Lemmas/GwAuth.lean`: `F8` carried through every model function).
   The monitor `Spec.c0809` checks the whole-session statement on implementation traces.
 -/
+import Bisquitt.Lemmas.GwAuth
 import Bisquitt.Props.C0809
 import Bisquitt.Spec.Gateway
 
@@ -79,5 +85,209 @@ theorem c08_auth_ignored (g : Gw) (t : Tx) (st : ConnSt) (f : ConnFields) (m dat
 example : decodePlain [0, 0x75, 0, 0x70] = some ([0x75], [0x70]) := by decide
 example : decodePlain [0x75, 0, 0x70] = none := by decide
 example : decodePlain [0, 0x75] = none := by decide
+
+end Bisquitt.Gw
+
+namespace Bisquitt.Gw
+open Bisquitt Gw
+
+/-! ## every run: with authentication enabled, no MQTT CONNECT before an AUTH datagram -/
+
+theorem F8.finishSession (g : Gw) : F8 g g.finishSession := by
+  unfold Gw.finishSession
+  split
+  · split
+    · exact F8.refl g
+    · unfold Gw.shutdownDisconnect Gw.stopTimers Gw.emitEnd
+      have h1 : ∀ x : Gw, F8 x (if x.st = .active ∨ x.st = .awake then x.emit (.sn (encode (.disconnect 0))) else x) := by
+        intro x; split
+        · exact F8.emit x _ rfl
+        · exact F8.refl x
+      have h2 : ∀ x : Gw, F8 x ((x.emit (.ended x.endCls)).emit .mqClose) := fun x => (F8.emit x _ rfl).trans (F8.emit _ _ rfl)
+      refine (((F8.setNow g _).trans (h1 _)).trans (h2 _)).trans ⟨rfl, fun hA => ⟨?_, rfl⟩⟩
+      intro t ht
+      simp only [List.mem_map] at ht
+      obtain ⟨y, hy, rfl⟩ := ht
+      exact hA y hy
+  · exact F8.refl g
+
+theorem F8.advance : ∀ (fuel : Nat) (g : Gw) (t : Nat), F8 g (advance fuel g t) := by
+  intro fuel
+  induction fuel with
+  | zero => intro g t; exact F8.setNow g _
+  | succ n ih =>
+    intro g t
+    unfold Gw.advance
+    split
+    · exact (F8.finishSession g).trans (F8.setNow _ _)
+    · split
+      · exact ((F8.fireDue g _).trans (F8.finishSession _)).trans (ih _ t)
+      · exact F8.setNow g _
+
+theorem F8.sample (g : Gw) : F8 g g.sample := by
+  unfold Gw.sample Gw.sampleBuf Gw.sampleReg Gw.sampleState
+  have e : ∀ (x y : Gw) (o : Out), isMqConnect (y.now, o) = false → y.cfg = x.cfg → y.txs = x.txs → y.outs = x.outs →
+      F8 x (y.emit o) := fun x y o ho hc ht hou => (F8.of_eq hc hou ht).trans (F8.emit y o ho)
+  split <;> split <;> split <;>
+    first
+    | exact F8.refl g
+    | exact (e _ _ _ rfl rfl rfl rfl)
+    | exact (e _ _ _ rfl rfl rfl rfl).trans (e _ _ _ rfl rfl rfl rfl)
+    | exact ((e _ _ _ rfl rfl rfl rfl).trans (e _ _ _ rfl rfl rfl rfl)).trans (e _ _ _ rfl rfl rfl rfl)
+
+@[simp] theorem snSend_cfg (g : Gw) (p : Pkt) (tx : Option Nat) : (g.snSend p tx).cfg = g.cfg := (F8.snSend g p tx).cfg
+@[simp] theorem finishTx_cfg (g : Gw) (id : Nat) : (g.finishTx id).cfg = g.cfg := (F8.finishTx g id).cfg
+@[simp] theorem fail_cfg (g : Gw) (c : EndCls) : (g.fail c).cfg = g.cfg := (F8.fail g c).cfg
+@[simp] theorem setTx_cfg (g : Gw) (t : Tx) : (g.setTx t).cfg = g.cfg := rfl
+@[simp] theorem mqttSend_cfg (g : Gw) (p : MqPkt) : (g.mqttSend p).cfg = g.cfg := rfl
+
+theorem connWillTopic_cfg (g : Gw) (t : Tx) (st : ConnSt) (f : ConnFields) (q : UInt8) (r : Bool) (tp : Bytes) :
+    (g.connWillTopic t st f q r tp).cfg = g.cfg := by
+  unfold Gw.connWillTopic; split <;> (try split) <;> simp
+theorem connWillMsg_cfg (g : Gw) (t : Tx) (st : ConnSt) (f : ConnFields) (m : Bytes) : (g.connWillMsg t st f m).cfg = g.cfg := by
+  unfold Gw.connWillMsg; split <;> simp
+theorem connConnack_cfg (g : Gw) (t : Tx) (st : ConnSt) (rc : UInt8) : (g.connConnack t st rc).cfg = g.cfg := by
+  unfold Gw.connConnack Gw.sendConnack; split <;> (try split) <;> simp
+
+/-- client packets other than AUTH -/
+def notAuth : Pkt → Bool | .auth .. => false | _ => true
+
+theorem F8.handleSn (g : Gw) (p : Pkt) (ha : g.cfg.auth = true) (hp : notAuth p = true) : F8 g (g.handleSn p) := by
+  unfold Gw.handleSn
+  split
+  · exact F8.fail g _
+  · split
+    · exact F8.handleConnect g _ _ _ _ ha
+    · simp [notAuth] at hp
+    · split
+      · rename_i t st f hc
+        exact ⟨connWillTopic_cfg _ _ _ _ _ _ _, fun hA => (F8.connWillTopic g t st f _ _ _ (awaiting_of hA hc)).keep hA⟩
+      · exact F8.refl g
+    · split
+      · rename_i t st f hc
+        exact ⟨connWillMsg_cfg _ _ _ _ _, fun hA => (F8.connWillMsg g t st f _ (awaiting_of hA hc)).keep hA⟩
+      · exact F8.refl g
+    · exact F8.handleRegister g _ _
+    · exact F8.handleClientPublish g _ _ _ _ _ _ _
+    · exact F8.mqttSend g _ rfl
+    · exact F8.handleSubscribe g _ _ _ _ _ _
+    · exact F8.handleUnsubscribe g _ _ _ _
+    · exact F8.handlePingreq g
+    · exact F8.handleDisconnect g _
+    · split
+      · split
+        · exact F8.bpRegack g _ _ _ _ _ _
+        · exact F8.refl g
+      · exact F8.refl g
+    · split
+      · split
+        · split
+          · exact F8.refl g
+          · split
+            · exact F8.finishTx g _
+            · exact F8.proceedMQ g _ _ _ rfl
+        · exact F8.refl g
+      · exact F8.refl g
+    · split
+      · split
+        · split
+          · exact F8.refl g
+          · exact F8.proceedMQ g _ _ _ rfl
+        · exact F8.refl g
+      · exact F8.refl g
+    · split
+      · split
+        · split
+          · exact F8.refl g
+          · exact F8.proceedMQ g _ _ _ rfl
+        · exact F8.refl g
+      · exact F8.refl g
+    · exact F8.fail g _
+
+theorem F8.handleMq (g : Gw) (p : MqPkt) : F8 g (g.handleMq p) := by
+  unfold Gw.handleMq
+  split
+  · split
+    · rename_i t st f hc
+      exact ⟨connConnack_cfg _ _ _ _, fun hA => (F8.connConnack g t st _ (awaiting_of hA hc)).keep hA⟩
+    · exact F8.refl g
+  · split
+    · split
+      · exact (F8.finishTx g _).trans (F8.snSend _ _ _)
+      · exact F8.refl g
+    · exact F8.refl g
+  · exact F8.snSend g _ _
+  · exact F8.snSend g _ _
+  · split
+    · split
+      · split
+        · split
+          · exact (F8.finishTx g _).trans (F8.snSend _ _ _)
+          · exact (F8.finishTx g _).trans (F8.snSend _ _ _)
+        · exact (F8.finishTx g _).trans (F8.fail _ _)
+      · exact F8.refl g
+    · exact F8.refl g
+  · exact F8.snSend g _ _
+  · split
+    · exact F8.refl g
+    · exact F8.snSend g _ _
+  · exact F8.handleBrokerPublish g _ _ _ _ _ _
+  · split
+    · split
+      · split
+        · exact F8.refl g
+        · exact F8.proceedSN g _ _ _
+      · exact F8.refl g
+    · exact F8.refl g
+  · exact F8.fail g _
+
+/-- events other than an AUTH datagram from the client -/
+def noAuthEvent : Event → Bool
+  | .sn bytes => match decode (bytes.take Gen.MaxPacketLen) with
+    | .ok (_, p) => notAuth p
+    | _ => true
+  | _ => true
+
+theorem F8.handleEvent (g : Gw) (ev : Event) (ha : g.cfg.auth = true) (hq : noAuthEvent ev = true) : F8 g (g.handleEvent ev) := by
+  unfold Gw.handleEvent
+  split
+  · split
+    · rename_i hd p hdec
+      exact F8.handleSn g p ha (by simpa [noAuthEvent, hdec] using hq)
+    · exact F8.fail g _
+  · exact F8.handleMq g _
+  · exact F8.fail g _
+  · split <;> exact F8.fail g _
+  · exact F8.fail g _
+  · exact F8.refl g
+
+theorem F8.step (g : Gw) (t : Nat) (ev : Event) (ha : g.cfg.auth = true) (hq : noAuthEvent ev = true) : F8 g (g.step t ev) := by
+  unfold Gw.step Gw.stepCore Gw.deliver
+  have q1 := F8.advance 100000 g t
+  split
+  · exact (q1.trans (F8.finishSession _)).trans (F8.sample _)
+  · have q2 := F8.handleEvent _ ev (by rw [q1.cfg]; exact ha) hq
+    exact ((((q1.trans q2).trans (F8.advance 100000 _ t)).trans (F8.finishSession _))).trans (F8.sample _)
+
+/-- **C08 (ALL runs).** With authentication enabled, whatever the client, the broker and the clock do —
+    CONNECTs (with or without a will), will packets, every other datagram, malformed ones, broker
+    packets, every timer, EOF, shutdown — as long as the client has sent no AUTH datagram the gateway
+    writes NO MQTT CONNECT to the broker. -/
+theorem c08_no_connect_without_auth (cfg : Cfg) (a b : UInt16) (evs : List (Nat × Event)) (ha : cfg.auth = true)
+    (hq : ∀ e ∈ evs, noAuthEvent e.2 = true) : mqConnects ((Gw.init cfg a b).run evs) = [] := by
+  have gen : ∀ (evs : List (Nat × Event)) (g : Gw), g.cfg.auth = true → AllAwait g → mqConnects g = [] →
+      (∀ e ∈ evs, noAuthEvent e.2 = true) →
+      mqConnects (evs.foldl (fun g (te : Nat × Event) => g.step te.1 te.2) g) = [] := by
+    intro evs
+    induction evs with
+    | nil => intro g _ _ h0 _; exact h0
+    | cons e rest ih =>
+      intro g hga hA h0 hq
+      simp only [List.foldl_cons]
+      have st := F8.step g e.1 e.2 hga (hq e (by simp))
+      exact ih _ (by rw [st.cfg]; exact hga) (st.txs hA) (by rw [st.outs hA]; exact h0)
+        (fun x hx => hq x (by simp [hx]))
+  unfold Gw.run
+  exact gen evs _ ha (by intro t ht; simp [Gw.init] at ht) rfl hq
 
 end Bisquitt.Gw
